@@ -279,6 +279,23 @@ def model(m, s, fi, t, fk, args, site):
             if ref is not None:
                 return some(Tup([Ref(ref.fi, ref.local, ref.proj + (("i", k),)), Ref(ref.fi, ref.local, ref.proj + (("sub", a, ln),))]))
             return some(Tup([seq[k], Tup(seq[a:a + ln])]))
+    if n in ("split_first_chunk", "split_last_chunk", "first_chunk", "last_chunk", "split_first_chunk_mut", "split_last_chunk_mut", "first_chunk_mut", "last_chunk_mut") \
+            and len(args) == 1 and d.startswith("core::slice"):
+        ref, seq = seq_of(m, s, args[0])
+        mm = re.search(r"::<(\d+)(?:_usize)?>", fk.i) or re.search(r"<(\d+)(?:_usize)?>$", fk.i)
+        gi = [int(x) for x in (fk.get("args") or []) if isinstance(x, str) and x.isdigit()]
+        k = int(mm.group(1)) if mm else (gi[0] if gi else (fr.gints[0] if len(fr.gints) == 1 else None))
+        if seq is not None and k is not None:
+            L = len(seq)
+            if L < k:
+                return NONE
+            first = "first" in n
+            a0, r0, rl = (0, k, L - k) if first else (L - k, 0, L - k)
+            chunk = Ref(ref.fi, ref.local, ref.proj + (("sub", a0, k),)) if ref is not None else Tup(seq[a0:a0 + k])
+            if n.startswith("split_"):
+                rest = Ref(ref.fi, ref.local, ref.proj + (("sub", r0, rl),)) if ref is not None else Tup(seq[r0:r0 + rl])
+                return some(Tup([chunk, rest]) if first else Tup([rest, chunk]))
+            return some(chunk)
     if n in ("first", "last") and len(args) == 1 and isinstance(A[0], Tup) and d.startswith("core::slice"):
         if not A[0]:
             return NONE
